@@ -85,7 +85,7 @@ def run_property(prop):
         if replayer is not None:
             rep = replayer(r, replay_dir)
         else:
-            rep = kani_replay(crate_of.get(r.name), r.name, features=feats, keep_dir=replay_dir)
+            rep = kani_replay(crate_of.get(r.name), r.name, features=getattr(r, "features", feats), keep_dir=replay_dir)
         return r, desc, rep
 
     from concurrent.futures import ThreadPoolExecutor
